@@ -155,6 +155,8 @@ class Sources(object):
         self.classes[key] = ci
 
     # ------------------------------------------------------------------
+    ext_exc = {}
+
     def add_virtual(self, name, bases, members):
         self.virtual[name] = {"bases": list(bases), "members": list(members)}
 
@@ -247,6 +249,8 @@ class Sources(object):
                 if self.exception_is_subclass(b, base):
                     return True
             return False
+        if c in self.ext_exc:
+            return self.exception_is_subclass(self.ext_exc[c], base)
         bc = getattr(builtins, c, None)
         bb = getattr(builtins, base, None)
         if isinstance(bc, type) and isinstance(bb, type):
